@@ -444,7 +444,14 @@ func runC09(c *Ctx) {
 			fmt.Printf("TRACE %d %s => %s\n", i, p.desc(), trunc(res, 100))
 		}
 		if !(c.Only >= 0 && *fOut == "") {
-			c.Digest(i, h64(res)+" "+strconv.Quote(trunc(res, 70)))
+			if p.dec != nil && c10LastZero.MatchString(p.dec.doc) {
+				// known finding B42: the byte behind an input ending in the token 0 / -0 is read and can
+				// change the result; what lies there is not a matter of history in the sense of C09
+				c.Digest(i, "B42-not-compared")
+				c.Count("probes_not_compared_B42", 1)
+			} else {
+				c.Digest(i, h64(res)+" "+strconv.Quote(trunc(res, 70)))
+			}
 		}
 		if strings.HasPrefix(res, "PANIC") {
 			c.Violate(i, "probe", "panic: "+trunc(res, 200), map[string]interface{}{"probe": p.desc(), "history": strings.Join(hist, "; ")})
@@ -466,6 +473,9 @@ func runC09(c *Ctx) {
 	runtime.GC()
 	shuffle()
 	for _, i := range order {
+		if ps[i].dec != nil && c10LastZero.MatchString(ps[i].dec.doc) {
+			continue // B42, see above
+		}
 		if res := ps[i].run(); res != first[i] {
 			x, y := diffAt(res, first[i])
 			c.Violate(i, "probe", "the same call in the same process gave another result the second time", map[string]interface{}{"probe": ps[i].desc(), "second": x, "first": y, "history": strings.Join(hist, "; ")})
